@@ -39,6 +39,8 @@ def cut_scripts(thorough):
         scripts.append(base + [["R", 1], ["F", "fin"]])
         scripts.append({"ops": base + [["F", "stall"]], "keepalive": [1000, 500]})
         scripts.append({"ops": base + [["R", 1], ["Y", 0], ["F", "stall"]], "keepalive": [300, 2000]})
+        # silent peer while callers keep submitting (and abandoning) requests on the connection
+        scripts.append({"ops": base + [["F", "stall", 1]], "keepalive": [900, 600]})
     return scripts
 
 
